@@ -7,7 +7,7 @@ use grin_core::core::hash::Hashed;
 use grin_core::core::{Block, BlockHeader, Transaction};
 use grin_util::ToHex;
 use grin_wallet_libwallet as libwallet;
-use grin_wallet_libwallet::{InitTxArgs, OutputStatus, TxLogEntryType};
+use grin_wallet_libwallet::{InitTxArgs, OutputData, OutputStatus, TxLogEntryType};
 use serde_json::json;
 
 /// build `len` neutral blocks on `prev` (not necessarily the head), txs in the first one; the blocks
@@ -59,7 +59,34 @@ fn judge(w: &World, rep: &mut Report, slate_id: uuid::Uuid, after: &str, full_lo
 		}
 	};
 	let outs = wal.all_outputs().unwrap_or_default();
-	let out = outs.iter().find(|o| o.tx_log_entry == Some(e.id) && o.root_key_id == e.parent_key_id && !o.is_coinbase);
+	let relinked = case["received_output_relinked_by_an_own_send"].as_bool().unwrap_or(false);
+	let amount: u64 = case["amount"].as_str().and_then(|a| a.parse().ok()).unwrap_or(0);
+	let out = if relinked { outs.iter().find(|o| !o.is_coinbase && o.value == amount && o.root_key_id == e.parent_key_id) } else { outs.iter().find(|o| o.tx_log_entry == Some(e.id) && o.root_key_id == e.parent_key_id && !o.is_coinbase) };
+	if relinked {
+		// Known root cause (see known_findings.json, same as the open C04/C05 findings): an output record has one
+		// link to a log entry, and reserving the output overwrites the link to the entry that created it. Every
+		// mismatch of such a scenario is reported under one signature naming the cause.
+		let mut probe = Report::new("C18");
+		let mut c2 = case.clone();
+		c2["received_output_relinked_by_an_own_send"] = json!(false);
+		c2["amount"] = json!("0");
+		judge_inner(w, &mut probe, &e, out, after, full_look, &c2);
+		if !probe.violations.is_empty() {
+			let sigs: Vec<String> = probe.violations.iter().map(|v| v.signature.clone()).collect();
+			rep.violation("C18|revert-not-tracked|cause=received-output-reserved-by-an-own-send-before-the-reorganisation", &format!("{:?}: {}", sigs, probe.violations[0].what), case.clone());
+		} else {
+			rep.count("judged-with-a-relinked-output:consistent");
+		}
+		return;
+	}
+	judge_inner(w, rep, &e, out, after, full_look, case);
+}
+
+fn judge_inner(w: &World, rep: &mut Report, e: &libwallet::TxLogEntry, out: Option<&OutputData>, after: &str, full_look: bool, case: &serde_json::Value) {
+	let wal = &w.wallets[1];
+	let outs = wal.all_outputs().unwrap_or_default();
+	// (`out` was looked up in an earlier snapshot of the same records)
+	let out = out.and_then(|o| outs.iter().find(|x| x.key_id == o.key_id && x.mmr_index == o.mmr_index));
 	let kernel_on_chain = e.kernel_excess.map(|x| w.kernel_on_chain(&x)).unwrap_or(false);
 	let out_in_utxo = out.map(|o| w.is_unspent(&wal.commit_of(o))).unwrap_or(false);
 	let info = match wal.info(false, 1) {
@@ -191,6 +218,28 @@ fn scenario(a: &Args, rep: &mut Report, rng: &mut Rng, si: usize) {
 		rep.inconclusive("payment not confirmed before the reorganisation");
 		return;
 	}
+	// Every fifth scenario the recipient has meanwhile reserved the received output for a payment of its own (and,
+	// half of the time, cancelled that payment again): the output record then points at the recipient's own sent
+	// entry, no longer at the received one.
+	let mut relinked = false;
+	if si % 5 == 4 {
+		let wal = &w.wallets[1];
+		let r = (|| -> Result<uuid::Uuid, libwallet::Error> {
+			let s = wal.init_send(InitTxArgs { amount: 1_000_000_000, minimum_confirmations: 1, selection_strategy_is_use_all: true, ..Default::default() })?;
+			wal.lock_outputs(&s)?;
+			Ok(s.id)
+		})();
+		if let Ok(own) = r {
+			let entry = wal.all_txs().unwrap_or_default().into_iter().find(|t| t.tx_slate_id == Some(id)).map(|t| t.id);
+			relinked = wal.all_outputs().unwrap_or_default().iter().any(|o| !o.is_coinbase && o.value == amount && o.tx_log_entry != entry);
+			if rng.bool() {
+				let _ = wal.cancel(None, Some(own));
+				rep.count("recipient-reserved-the-received-output-for-an-own-send-and-cancelled-it");
+			} else {
+				rep.count("recipient-reserved-the-received-output-for-an-own-send");
+			}
+		}
+	}
 	// ---------------- flip-flops
 	let flips = 1 + rng.usize(if a.thorough() { 4 } else { 2 });
 	let mut main_tip: BlockHeader = w.chain().head_header().unwrap();
@@ -222,7 +271,7 @@ fn scenario(a: &Args, rep: &mut Report, rng: &mut Rng, si: usize) {
 			return;
 		}
 		main_tip = new_head;
-		let case = json!({"job":"c18","scenario": si, "flip": flip, "fork_point_height": fork_height, "receiving_block_height": below + 1, "fork_length": len, "fork_contains_payment": with_tx, "look_during_reorg": format!("{:?} at block {}", mid_look, mid_at), "amount": amount.to_string()});
+		let case = json!({"job":"c18","scenario": si, "flip": flip, "fork_point_height": fork_height, "receiving_block_height": below + 1, "fork_length": len, "fork_contains_payment": with_tx, "look_during_reorg": format!("{:?} at block {}", mid_look, mid_at), "amount": amount.to_string(), "received_output_relinked_by_an_own_send": relinked});
 		rep.eval();
 		if with_tx {
 			// mined again: an ordinary refresh must report it confirmed and spendable
